@@ -106,6 +106,16 @@ pub fn newgen(req: &Req) -> R<String> {
 	let js = |s: String| format!("st:{}", join(&json_numbers(&s), ","));
 	Ok(match req.get("gen")? {
 		"xoshiro" => js(serde_json::to_string(&Xoshiro256::new()).map_err(|_| Bad)?),
+		// the crate-level entry point `urandom::new()` returns an opaque `Random<impl Rng + Clone>`; its state is read back from memory when the
+		// value has the size of the four state words (`Random` and the generator are plain wrappers), otherwise it is reported as unreadable
+		"libnew" => {
+			let r = urandom::new();
+			if std::mem::size_of_val(&r) != 32 {
+				return Ok("st:unreadable".into());
+			}
+			let st: [u64; 4] = unsafe { std::mem::transmute_copy(&r) };
+			format!("st:{}", join(&st, ","))
+		}
 		"splitmix" => js(serde_json::to_string(&SplitMix64::new()).map_err(|_| Bad)?),
 		"wyrand" => js(serde_json::to_string(&Wyrand::new()).map_err(|_| Bad)?),
 		"chacha8" => crate::chacha::dump(&ChaCha8::new())?,
